@@ -1211,6 +1211,9 @@ class TreeSim(taps.Sim):
         tol = REL * scale
 
         def cmp(path, col, impl, rows, key):
+            if len(impl) != T + 1:
+                self.violation("rows_" + col, "%s %s has %d recorded rows on %s, the %d dates up to now were expected" % (path, col, len(impl), self.dates[T].date(), T + 1), {"col": col, "length": True})
+                return False
             for i in range(T + 1):
                 t = i - 1
                 e = rows[t][key] if t in rows else 0.0
@@ -1380,6 +1383,45 @@ def run_plan(bt, plan, judge):
     finally:
         taps.set_current(None)
     return sim
+
+
+def gen_worthless_sub_plan(rng, tier="quick"):
+    """a leveraged root meets a price shock while one of its sub-strategies (possibly two levels down) is worth *exactly* zero
+    although it holds positions: an unfunded, self-financing long/short pair in two tickers quoted identically"""
+    ndates = rng.randint(4, 10)
+    tickers = ["A", "B", "M", "N"]
+    dates, style = feedmod.gen_dates(rng, ndates, rng.choice(["bday", "gaps"]))
+    prices, fired = feedmod.gen_prices(rng, ndates, tickers, faults={})
+    for row in prices:
+        row[1] = row[0]  # B is quoted exactly like A
+    lev = rng.choice([2.0, 3.0, 5.0])
+    d = rng.randint(1, ndates - 1)
+    outcome = rng.choice(["cross", "cross", "cross", "survive"])
+    mag = (1.0 / lev) * (rng.uniform(1.2, 1.8) if outcome == "cross" else rng.uniform(0.3, 0.7))
+    p0 = prices[0][2]
+    for i in range(ndates):
+        prices[i][2] = round(p0 * (1 + 0.001 * (i % 3)) * (1.0 if i < d else (1 - mag)), 4)
+    pair = {"k": "S", "name": "ls", "cls": "Strategy", "fi": False, "how": "list", "children": [{"k": "X", "name": t, "cls": "Security", "mult": 1.0, "decl": rng.choice(["obj", "str"])} for t in ("A", "B")]}
+    deep = rng.random() < 0.4
+    holder = {"k": "S", "name": "mid", "cls": "Strategy", "fi": False, "how": "list", "children": [pair]} if deep else pair
+    tree = {"k": "S", "name": "root", "cls": "Strategy", "fi": False, "how": "list", "children": [holder, {"k": "X", "name": "M", "cls": "Security", "mult": 1.0, "decl": "obj"}, {"k": "X", "name": "N", "cls": "Security", "mult": 1.0, "decl": "obj"}]}
+    ls = 2 if deep else 1
+    x = rng.choice([0.05, 0.2, 0.5])
+    ops = [{"op": "tick"}, {"op": "alloc", "n": 0, "c": 1, "mode": "frac", "frac": lev, "direct": False, "upd": True},
+           {"op": "transact", "n": ls, "c": 0, "qfrac": x, "upd": True, "direct": False, "custom": None},
+           {"op": "transact", "n": ls, "c": 1, "qfrac": -x, "upd": True, "direct": False, "custom": None}]
+    if rng.random() < 0.3:
+        ops.append({"op": "alloc", "n": 0, "c": 2, "mode": "frac", "frac": 0.1, "direct": False, "upd": True})
+    for _ in range(ndates - 1):
+        if rng.random() < 0.3:
+            ops.append({"op": "dup", "k": 1})
+        if rng.random() < 0.3:
+            ops.append({"op": "read", "n": rng.randrange(64), "c": rng.randrange(64), "sec": rng.random() < 0.5, "prop": rng.randrange(64)})
+        ops.append({"op": "tick"})
+    fired["price_shock_" + outcome] = 1
+    fired["zero_value_sub_with_positions"] = 1
+    cfg = {"integer": rng.random() < 0.5, "comm": {"kind": "zero"}, "capital": rng.choice([1e5, 1e6]), "fi": False, "obs_price": rng.random() < 0.5, "flush": "eager", "profile": "bankrupt"}
+    return {"driver": "tree", "cfg": cfg, "tree": tree, "feed": {"dates": dates, "tickers": tickers, "prices": prices, "style": style}, "ops": ops, "fired": fired}
 
 
 def gen_ill_plan(rng, kind, tier="quick"):
